@@ -227,3 +227,63 @@ VARIANTS += [
     S("C10", "loop-variable-renamed", OPS, "            res = \"\"\n            for k in range(dim2[0]):\n                res += \"({}) * ({}) + \".format(_get_sub_element_term(self.element_1,\n                                                                     [k], time), _get_sub_element_term(self.element_2, [k, index], time))",
       "            res = \"\"\n            for m in range(dim2[0]):\n                res += \"({}) * ({}) + \".format(_get_sub_element_term(self.element_1,\n                                                                     [m], time), _get_sub_element_term(self.element_2, [m, index], time))"),
 ]
+
+# ---------------------------------------------------------------------------- C05
+FPY = "BPTK_Py/util/floating_point.py"
+RUN = "BPTK_Py/scenariorunners/sd_runner.py"
+SMSD = "BPTK_Py/scenariomanager/scenario_manager_sd.py"
+SMHY = "BPTK_Py/scenariomanager/scenario_manager_hybrid.py"
+SCN = "BPTK_Py/scenariomanager/scenario.py"
+CONST = "BPTK_Py/sddsl/constant.py"
+VARIANTS += [
+    F("C05", "timerange-drops-normalize", FPY, "        i=normalize(i+dt,base=dt,offset=starttime,precision=max(scale(starttime),scale(dt)))", "        i=i+dt", None, error_ok=True),
+    F("C05", "timerange-wrong-offset", FPY, "        i=normalize(i+dt,base=dt,offset=starttime,precision=max(scale(starttime),scale(dt)))", "        i=normalize(i+dt,base=dt,offset=0.0,precision=max(scale(starttime),scale(dt)))", "NORM/timerange/parameters"),
+    F("C05", "memo-probes-raw-arg", MODEL, "        if normalized_arg in mymemo.keys():\n            return mymemo[normalized_arg]", "        if arg in mymemo.keys():\n            return mymemo[arg]", "KEY/memoize"),
+    F("C05", "memo-precision-from-dt-only", MODEL, "max(fp.scale(self.starttime), fp.scale(self.dt)))", "fp.scale(self.dt))", "NORM/memoize/parameters"),
+    F("C05", "exclusive-raw-bound", SDSIM, "for i in timerange(start, until, self.mod.dt, exclusive=False):", "for i in timerange(start, until+self.mod.dt, self.mod.dt):", "RAW/SdSimulation.__simulate"),
+    F("C05", "raw-session-clock", BPTK, 'self.session_state["step"]=normalize(step+dt, base=dt, offset=starttime, precision=max(scale(starttime), scale(dt)))', 'self.session_state["step"]=step+dt', "RAW/bptk.run_step/session-clock"),
+    F("C05", "log-keyed-by-next-step", BPTK, '        self.session_state["results_log"][step] = simulation_results', '        self.session_state["results_log"][step+dt] = simulation_results', "RAW/bptk.run_step/key"),
+    F("C05", "step-simulates-two-points", RUN, "start(output=[\"frame\"], start=step, until=step,equations=equations)", "start(output=[\"frame\"], start=step, until=step+sc.dt,equations=equations)", None, error_ok=True),
+    S("C05", "key-variable-renamed", MODEL, "normalized_arg", "grid_time", count="all"),
+    S("C05", "precision-in-a-local", FPY, "        i=normalize(i+dt,base=dt,offset=starttime,precision=max(scale(starttime),scale(dt)))", "        i=normalize(i+dt,base=dt,offset=starttime,precision=max(scale(dt),scale(starttime)))"),
+]
+
+# ---------------------------------------------------------------------------- C06
+VARIANTS += [
+    F("C06", "clone-shares-points", SMSD, "        new_mod.points = dict(model.points)", "        new_mod.points = model.points", "ALIAS/ScenarioManagerSd.get_cloned_model/points"),
+    F("C06", "clone-shares-equations", SMSD, "        new_mod.points = dict(model.points)", "        new_mod.points = dict(model.points)\n        new_mod.equations = model.equations", "ALIAS/ScenarioManagerSd.get_cloned_model/equations"),
+    F("C06", "clone-shares-memo", SMSD, "        new_mod.points = dict(model.points)", "        new_mod.points = dict(model.points)\n        new_mod.memo = model.memo", "ALIAS/ScenarioManagerSd.get_cloned_model/memo"),
+    F("C06", "scenario-rebinds-points", SCN, "                self.model.points.update(self.points)", "                self.model.points = self.points", "REBIND/SimulationScenario.__init__/points"),
+    F("C06", "hybrid-no-deepcopy", SMHY, "                    scenario = deepcopy(self.model)", "                    scenario = self.model", "FRESH/ScenarioManagerHybrid.instantiate_model"),
+    F("C06", "one-clone-for-all", SMSD, "model=self.get_cloned_model(self.model),", "model=self.model,", "FRESH/add_scenarios"),
+    F("C06", "manager-without-scenarios-arg", "BPTK_Py/bptk.py", "                    manager = ScenarioManagerSd(\n                        scenarios={},\n", "                    manager = ScenarioManagerSd(\n", "DEFAULTS/ScenarioManagerSd/scenarios"),
+    S("C06", "points-copied-by-comprehension", SMSD, "        new_mod.points = dict(model.points)", "        new_mod.points = {k: v for k, v in model.points.items()}"),
+    S("C06", "deepcopy-spelled-out", SMSD, "        new_mod.points = dict(model.points)", "        new_mod.points = copy.deepcopy(model.points)"),
+]
+
+# ---------------------------------------------------------------------------- C07
+VARIANTS += [
+    F("C07", "rest-stoptime-from-starttime", SRV, '                            scenario.stoptime = runspecs["stoptime"]', '                            scenario.stoptime = runspecs["starttime"]', "WIRING/BptkServer._run_resource/stoptime<-starttime"),
+    F("C07", "session-settings-drop-points", SCN, '        if "points" in dictionary:\n            for key, value in dictionary["points"].items():\n                self.points[key] = value\n', '', "WIRING/SimulationScenario.configure_settings/missing-points"),
+    F("C07", "batch-runner-drops-points", RUN, "                for name, points in sc.points.items():\n                    simu.change_points(name=name, value=points)\n", "", "APPLY/SdRunner._run_scenarios/change_points"),
+    F("C07", "runspecs-write-delta", SDSIM, "        self.mod.dt = dt\n", "        self.mod.delta = dt\n", "DEFUSE/SdSimulation.change_runspecs"),
+    F("C07", "starttime-typo", SDSIM, "        self.mod.starttime = starttime\n", "        self.mod.startime = starttime\n", "DEFUSE/SdSimulation.change_runspecs"),
+    F("C07", "file-runspecs-killed", SMSD, '                    if "dt" not in runspecs:\n                        scenario.dt = scenario.model.dt', '                    scenario.dt = scenario.model.dt', "KILL/ScenarioManagerSd.instantiate_model/dt"),
+    F("C07", "dt-spliced-early", OPS, '        return "model.dt"', '        return "{}".format(self.model.dt)', "BIND/DT.term"),
+    F("C07", "points-filled-from-constants", SCN, '            for key, value in dictionary["points"].items():\n                self.points[key] = value', '            for key, value in dictionary["constants"].items():\n                self.points[key] = value', "WIRING/SimulationScenario.configure_settings"),
+    F("C07", "base-constants-override-scenario", SMSD, '                for const, value in self.base_constants.items():\n                    if not const in scenario["constants"].keys():\n                        scenario["constants"][const] = value', '                for const, value in self.base_constants.items():\n                    scenario["constants"][const] = value', "MERGE/ScenarioManagerSd.add_scenarios/base_constants"),
+    F("C07", "step-runner-swaps-dt", RUN, "sc.sd_simulation.change_runspecs(starttime=sc.starttime,stoptime=sc.stoptime,dt=sc.dt)", "sc.sd_simulation.change_runspecs(starttime=sc.starttime,stoptime=sc.dt,dt=sc.stoptime)", "APPLY/SdRunner.run_scenario_step/change_runspecs-wiring"),
+    S("C07", "runspecs-positional", RUN, "simu.change_runspecs(starttime=sc.starttime,stoptime=sc.stoptime,dt=sc.dt)", "simu.change_runspecs(sc.starttime, sc.stoptime, sc.dt)"),
+]
+
+# ---------------------------------------------------------------------------- C08
+VARIANTS += [
+    F("C08", "flow-setter-no-reset", FLOW, "            self._equation = equation\n        self.model.reset_cache()\n        self.build_function_string()", "            self._equation = equation\n        self.build_function_string()", "MUSTCALL/Flow.equation.setter"),
+    F("C08", "initial-value-no-reset", STOCK, "            self.model.reset_cache()\n            self.build_function_string()", "            self.build_function_string()", "MUSTCALL/Stock.initial_value.setter"),
+    F("C08", "constant-resets-only-numbers", CONST, "            self._equation = None\n\n        self.model.reset_cache()\n        self.generate_function()", "            self._equation = None\n            self.model.reset_cache()\n\n        self.generate_function()", "MUSTCALL/Constant.equation.setter"),
+    F("C08", "model-reset-clears-stocks-only", MODEL, "        for equation in self.memo:\n            self.memo[equation] = {}", "        for equation in self.memo:\n            if equation in self.stocks:\n                self.memo[equation] = {}", "CLEAR/Model.reset_cache"),
+    F("C08", "scenario-reset-keeps-simulation", SCN, "            self.model.memo[key] = {}\n        self.sd_simulation = None", "            self.model.memo[key] = {}", "CLEAR/SimulationScenario.reset_cache/sd_simulation"),
+    F("C08", "rest-settings-before-reset", SRV, "                    self._bptk.reset_scenario_cache(scenario_manager=scenario_manager_name,scenario=scenario_name)\n                    scenario = self._bptk.get_scenario(scenario_manager_name,scenario_name)", "                    scenario = self._bptk.get_scenario(scenario_manager_name,scenario_name)", "MUSTCALL/_run_resource"),
+    S("C08", "reset-after-build", FLOW, "        self.model.reset_cache()\n        self.build_function_string()\n        self.generate_function()", "        self.build_function_string()\n        self.model.reset_cache()\n        self.generate_function()"),
+    S("C08", "iterate-over-a-copy", MODEL, "        for equation in self.memo:\n            self.memo[equation] = {}", "        for equation in list(self.memo):\n            self.memo[equation] = {}"),
+]
